@@ -330,8 +330,18 @@ func (s *session) runV1(name string, op J) J {
 		cl.GetNativeInterpreter().AddUpdater(str(op, "table"), str(op, "expr"), func(item, attrs map[string]*mt.Item) {
 			s.fired = append(s.fired, id)
 			for k, v := range set {
-				if k != "@poke" {
+				if k != "@poke" && k != "@pokes" {
 					item[k] = v
+				}
+			}
+			if _, poke := set["@pokes"]; poke {
+				// an in-place write through the pointer of a scalar attribute
+				if x := item["x"]; x != nil {
+					if x.S != nil {
+						*x.S = *x.S + "!"
+					} else if x.N != nil {
+						*x.N = "777"
+					}
 				}
 			}
 			if _, poke := set["@poke"]; poke {
